@@ -109,6 +109,13 @@ def represents(matches, ghost, direction):
 
 
 @spec
+def frames_inv(matches, seq, direction, offset, minimum_length, record_length, _f):
+    """before frame _f is scanned, the list holds exactly what the frames before it produced"""
+    return (0 <= _f and _f <= 3
+            and represents(matches, found_init(seq, _f, direction, offset, minimum_length, record_length), direction))
+
+
+@spec
 def frame_inv(matches, start, seq, frame, direction, offset, minimum_length, record_length, _i):
     s = open_start(_i, seq, frame)
     return (represents(matches, found(_i, seq, frame, direction, offset, minimum_length, record_length), direction)
@@ -132,15 +139,20 @@ class _ScanOrfsBase:
     def requires(seq, direction, offset, minimum_length, record_length):
         return offset >= 0 and (record_length is None or (record_length > 0 and len(seq.upper()) <= record_length))
 
-    loops = {1: Loop(invariant=frame_inv, types={"matches": SeqOf(ORF_LOC), "start": Opt(Int), "i": Int, "codon": Str,
-                                                 "end": Int, "loc_start": Int, "loc_end": Int})}
+    loops = {
+        # the three frames: one symbolic frame (the outer loop is cut as well, so the inner loop is verified once)
+        0: Loop(invariant=frames_inv, index="_f", iterable="_frames",
+                types={"matches": SeqOf(ORF_LOC), "start": Opt(Int), "frame": Int, "i": Int, "codon": Str,
+                       "end": Int, "loc_start": Int, "loc_end": Int}),
+        1: Loop(invariant=frame_inv, types={"matches": SeqOf(ORF_LOC), "start": Opt(Int), "i": Int, "codon": Str,
+                                            "end": Int, "loc_start": Int, "loc_end": Int}),
+    }
     unroll = 3
     budget_s = 600
     known = {"C15-F1": some_orf_of_exactly_the_minimum_length}
     ensures = {
         "reports-exactly-the-orfs-of-the-three-frames": lambda seq, direction, offset, minimum_length, record_length, result:
-            all_found(result, found(codons(seq, 2), seq.upper(), 2, direction, offset, minimum_length, record_length),
-                      direction),
+            all_found(result, found_init(seq.upper(), 3, direction, offset, minimum_length, record_length), direction),
     }
 
 
@@ -151,8 +163,7 @@ def _variant(name, direction, ring):
     attrs["params"] = {"seq": Str, "direction": Const(direction), "offset": Int, "minimum_length": Int,
                        "record_length": Int if ring else Const(None)}
     attrs["variant"] = name != "ScanOrfsForwardLinear"
-    if ring:
-        attrs["tiers"] = ("thorough",)   # ~3 min each: the quick tier proves the linear variants, the ring ones are bounded there
+
     cls = type(name, (), attrs)
     return contract(f"{FILE}::scan_orfs", props=["C15"])(cls)
 
